@@ -14,7 +14,9 @@ class C01(EngineACheck):
     RULE = (
         "generated programs over tasks, nested containers, lazy operators, partial tasks, "
         "expression-valued defaults, cond/seq/catch/catch_all/map_/apply_func/fork+join/apply_tags, "
-        "per-task executor mode thread/process(pickle boundary)/async-with-await, run on the real "
+        "local variables holding one lazy expression used as a direct term and again inside staged "
+        "seq / cond forms, per-task executor mode thread/process(pickle boundary)/async-with-await, "
+        "run on the real "
         "scheduler under two seeded schedules each and compared with the reference interpreter's "
         "admissible outcome set; a case is (program, schedule signature); non-trivial = two jobs "
         "in flight at once"
@@ -26,11 +28,13 @@ class C01(EngineACheck):
     def run_one(self, ch: Choices) -> RunOutcome:
         out = RunOutcome()
         cfg = GenConfig(
-            features=set(ALL_FEATURES),
+            features=set(ALL_FEATURES) | ({"lets"} if ch.coin(0.5, "lets-feature") else set()),
             p_error=0.4,
             multi_error=bool(ch.choice(4, "multi-error") == 3),
             modes=("thread", "thread", "process", "async"),
-            p_dup=0.15,
+            # swarm: some programs re-use the same closed calls heavily (the same expression as a
+            # direct term and again inside staged forms of one job)
+            p_dup=[0.05, 0.15, 0.5][ch.choice(3, "dup-rate")],
             max_tasks=8,
         )
         prog = Gen(ch, cfg).generate()
